@@ -1,15 +1,171 @@
-import CentrifugeVerif.Model.Survey
+import CentrifugeVerif.Proofs.Survey
 /-!
-# C41 — Survey collects one answer per node and terminates (first obligations; extended as proofs land)
+# C41 — Survey collects one answer per node and terminates
+
+Property theorems over `Model/Survey.lean` (invariant in `Proofs/Survey.lean`).  `Reach s`: `s` is
+reachable by any finite sequence of labels — any number of concurrent `Survey` calls, responses in
+any order, duplicated, late, addressed to any id (active, finished, never issued), from any uid,
+deadlines at any time, publish failures, local replies at any time.
 -/
 namespace CentrifugeVerif.Survey
 
-/-- `handleSurveyResponse` is a single label that is enabled in *every* state, for any uid, any id
-(active, finished, never issued), any number of earlier duplicates and any number of concurrent
-surveys: delivering a response never blocks. -/
+/-- **`survey_result_keys`**: in every reachable state, for every Survey call: the collected results
+and the returned map hold at most one entry per node uid, every entry was carried by a message whose
+id field is this survey's own id, and there are never more entries than expected nodes. -/
+theorem survey_result_keys {s : State} (h : Reach s) (t : Nat) (sv : Sv) (ht : s.surveys[t]? = some sv) :
+    (uids sv.results).Nodup ∧ (∀ r ∈ sv.results, r.forId = sv.id) ∧ sv.results.length ≤ sv.numNodes ∧
+    (uids sv.returned).Nodup ∧ (∀ r ∈ sv.returned, r.forId = sv.id) ∧ sv.returned.length ≤ sv.numNodes := by
+  have hi := (reach_inv h).each t sv ht
+  refine ⟨hi.res_nodup, hi.res_for, hi.res_le, ?_, ?_, ?_⟩
+  all_goals
+    by_cases hm : sv.main = .returnedOk
+    · rw [(hi.returned_ok hm).2.1]
+      first | exact hi.res_nodup | exact hi.res_for | exact hi.res_le
+    · rw [hi.not_returned hm]; simp [uids]
+
+/-- survey ids are never reused: distinct calls have distinct ids, so a response is routed to at most
+one call. -/
+theorem survey_ids_distinct {s : State} (h : Reach s) (t t' : Nat) (sv sv' : Sv)
+    (ht : s.surveys[t]? = some sv) (ht' : s.surveys[t']? = some sv') (hid : sv.id = sv'.id) : t = t' := by
+  have h1 := ((reach_inv h).each t sv ht).id_eq
+  have h2 := ((reach_inv h).each t' sv' ht').id_eq
+  omega
+
+/-- **`survey_returns`**, safety half: a Survey call that has returned without a context error holds
+exactly `numNodes` results; the collector is running only while fewer than `numNodes` distinct nodes
+have been collected (it stops in the very step that collects the last one); it has stopped only
+because the count was reached or the context was done. -/
+theorem survey_returns {s : State} (h : Reach s) (t : Nat) (sv : Sv) (ht : s.surveys[t]? = some sv) :
+    (sv.main = .returnedOk → sv.retErr = false → sv.returned.length = sv.numNodes) ∧
+    (sv.coll = .collecting → sv.results.length < sv.numNodes ∨ sv.numNodes = 0) ∧
+    (sv.coll = .done → sv.results.length = sv.numNodes ∨ sv.ctxDone = true) := by
+  have hi := (reach_inv h).each t sv ht
+  refine ⟨fun hm hr => ?_, hi.collecting_lt, hi.done_why⟩
+  rw [(hi.returned_ok hm).2.1]
+  exact (hi.returned_ok hm).2.2 hr
+
+/-- **`survey_returns`**, progress half (no fairness needed: the labels are *enabled*, and they are the
+survey's own internal steps): a call that waits in `wg.Wait()` and whose context is done or whose
+collector has finished reaches `return` within two of its own steps, whatever the other surveys do. -/
+theorem survey_return_enabled {s : State} (h : Reach s) (t : Nat) (sv : Sv) (ht : s.surveys[t]? = some sv)
+    (hw : sv.main = .waiting) (hready : sv.coll = .done ∨ sv.ctxDone = true) :
+    ∃ ls s' sv', ls.length ≤ 2 ∧ run s ls = some s' ∧ s'.surveys[t]? = some sv' ∧ sv'.main = .returnedOk ∧
+      sv'.registered = false := by
+  have hi := (reach_inv h).each t sv ht
+  have hlt : t < s.surveys.length := by
+    rcases Nat.lt_or_ge t s.surveys.length with h' | h'
+    · exact h'
+    · simp [List.getElem?_eq_none h'] at ht
+  by_cases hd : sv.coll = .done
+  · let sv1 : Sv := { sv with main := .returnedOk, registered := false, returned := sv.results }
+    let sv2 : Sv := { sv1 with retErr := sv.ctxDone }
+    refine ⟨[.ret t], upd s t sv2, sv2, by simp, ?_, ?_, rfl, rfl⟩
+    · simp [run, next, ht, hw, hd, sv1, sv2]
+    · simp [upd, hlt]
+  · have hc : sv.coll = .collecting := by
+      cases hcoll : sv.coll with
+      | notStarted => have := (hi.not_started hcoll).2; rw [hw] at this; cases this
+      | collecting => rfl
+      | done => exact absurd hcoll hd
+    have hctx : sv.ctxDone = true := by
+      rcases hready with h' | h'
+      · exact absurd h' hd
+      · exact h'
+    let sv0 : Sv := { sv with coll := .done }
+    let sv1 : Sv := { sv0 with main := .returnedOk, registered := false, returned := sv0.results }
+    let sv2 : Sv := { sv1 with retErr := sv0.ctxDone }
+    have h1 : next s (.collExit t) = some (upd s t sv0) := by simp [next, ht, hc, hctx, sv0]
+    have ht0 : (upd s t sv0).surveys[t]? = some sv0 := by simp [upd, hlt]
+    have h2 : next (upd s t sv0) (.ret t) = some (upd (upd s t sv0) t sv2) := by
+      simp only [next, ht0]
+      simp [hw, sv0, sv1, sv2]
+    refine ⟨[.collExit t, .ret t], upd (upd s t sv0) t sv2, sv2, by simp, ?_, ?_, rfl, rfl⟩
+    · simp [run, h1, h2]
+    · simp [upd, hlt]
+
+/-- a collector with a buffered reply can always take it; with the deadline passed it can always exit -/
+theorem collector_enabled (s : State) (t : Nat) (sv : Sv) (ht : s.surveys[t]? = some sv)
+    (hc : sv.coll = .collecting) :
+    (sv.chan ≠ [] → (next s (.collect t)).isSome = true) ∧
+    (sv.ctxDone = true → (next s (.collExit t)).isSome = true) := by
+  constructor
+  · intro hne
+    simp only [next, ht, hc]
+    cases hch : sv.chan with
+    | nil => exact absurd hch hne
+    | cons r rest => simp
+  · intro hd
+    simp [next, ht, hc, hd]
+
+/-- **`response_never_blocks`**: `handleSurveyResponse` is a single label that is enabled in *every*
+state, for any uid, any id (active, finished, never issued), any number of earlier duplicates and any
+number of concurrent surveys. -/
 theorem response_never_blocks (s : State) (uid : Uid) (id code : Nat) :
     (next s (.response uid id code)).isSome = true := by
   simp only [next]
   split <;> rfl
+
+/-- **`foreign_isolated`**: a response carrying id `id` leaves every Survey call with another id — and
+every call that is no longer registered (late response) — completely unchanged; no call is added or
+removed and the id counter does not move. -/
+theorem foreign_isolated (s s' : State) (uid : Uid) (id code : Nat)
+    (h : next s (.response uid id code) = some s') :
+    s'.surveyID = s.surveyID ∧ s'.surveys.length = s.surveys.length ∧
+    ∀ (t : Nat) (sv : Sv), s.surveys[t]? = some sv → (sv.id ≠ id ∨ sv.registered = false) →
+      s'.surveys[t]? = some sv := by
+  simp only [next] at h
+  split at h
+  · cases h; exact ⟨rfl, rfl, fun _ _ h _ => h⟩
+  · cases h
+    refine ⟨rfl, deliver_length _ _, ?_⟩
+    intro t sv ht hne
+    rcases deliver_get (Reply.mk uid code id) s.surveys t sv ht with h1 | ⟨_, hreg, hid, _⟩
+    · exact h1
+    · rcases hne with hne | hne
+      · exact absurd hid hne
+      · rw [hne] at hreg; cases hreg
+
+/-- what a response can do to the call it *is* addressed to: nothing, or append itself to that call's
+buffered channel when there is room — results, returned value, control state are never touched by a
+delivery (no corruption). -/
+theorem response_effect (s s' : State) (uid : Uid) (id code : Nat)
+    (h : next s (.response uid id code) = some s') (t : Nat) (sv : Sv) (ht : s.surveys[t]? = some sv) :
+    s'.surveys[t]? = some sv ∨
+    (s'.surveys[t]? = some { sv with chan := sv.chan ++ [Reply.mk uid code id] } ∧
+      sv.registered = true ∧ sv.id = id ∧ sv.chan.length < sv.numNodes) := by
+  simp only [next] at h
+  split at h
+  · cases h; exact Or.inl ht
+  · cases h
+    exact deliver_get (Reply.mk uid code id) s.surveys t sv ht
+
+/-- a response from the node's own uid is dropped by `handleControl` -/
+theorem own_uid_dropped (s : State) (id code : Nat) : next s (.response selfUid id code) = some s := by
+  simp [next]
+
+/-- the hypotheses are satisfiable by a non-trivial run: two concurrent surveys over 2 nodes; a
+duplicate, a foreign-id and a cross-addressed response; survey 0 completes, survey 1 hits its deadline. -/
+def exampleRun : List Label :=
+  [.begin 2, .spawn 0, .publish 0 true, .begin 2, .spawn 1, .publish 1 true,
+   .response 1 1 7, .response 1 1 8, .response 1 9 9, .response 1 2 5,
+   .collect 0, .collect 0, .collect 1, .localReply 0 3, .collect 0, .ret 0,
+   .ctxDone 1, .collExit 1, .ret 1, .response 1 1 6]
+
+example :
+    ∃ s, run init exampleRun = some s ∧ Reach s ∧
+      (s.surveys.map (fun sv => (sv.main, sv.retErr, sv.returned.map (fun r => (r.uid, r.code))))) =
+        [(.returnedOk, false, [(1, 8), (0, 3)]), (.returnedOk, true, [(1, 5)])] := by
+  refine ⟨_, rfl, ?_, by decide⟩
+  exact reach_run exampleRun Reach.init rfl
+
+/-- Outside the statement, recorded because the model shows it: the *local* reply is a blocking send.
+After the collector has exited, `numNodes` late responses can fill the channel while the registry
+entry still exists (here: `Survey` is still inside `publishControl`), and a local handler that calls
+its callback after that blocks forever (label not enabled). -/
+example :
+    ∃ s, run init [.begin 1, .spawn 0, .ctxDone 0, .collExit 0, .response 1 1 4] = some s ∧
+      next s (.localReply 0 1) = none := by
+  refine ⟨_, rfl, ?_⟩
+  decide
 
 end CentrifugeVerif.Survey
